@@ -5,6 +5,7 @@ import Tea.Time.Model
 import Tea.Render.Model
 import Tea.VT.Term
 import Tea.Render.Program
+import Tea.Render.Fps
 
 open Tea Tea.Driver Tea.Input
 
@@ -162,6 +163,12 @@ def stepGlue (line : String) : String :=
     | _, _ => "bad-op"
   | _ => "bad-op"
 
+/-- `fps`: requested fps → frame interval in nanoseconds -/
+def stepFPS (line : String) : String :=
+  match line.trimAscii.toString.toInt? with
+  | some f => toString (Tea.Render.framerateNs f)
+  | none => "bad-op"
+
 partial def loop (h : IO.FS.Stream) (out : IO.FS.Stream) (f : String → String) : IO Unit := do
   let line ← h.getLine
   if line.isEmpty then return ()
@@ -179,4 +186,5 @@ def main (args : List String) : IO UInt32 := do
   | ["render"] => loop stdin stdout stepRender; return 0
   | ["vt"] => loop stdin stdout stepVT; return 0
   | ["glue"] => loop stdin stdout stepGlue; return 0
+  | ["fps"] => loop stdin stdout stepFPS; return 0
   | _ => IO.eprintln "usage: driver <stream>"; return 2
